@@ -18,6 +18,10 @@ CODES = ListOf(Int(0, 255))
 TRIE0 = Obj(_esc.KeyqueueTrie, dict())
 
 
+MOUSE_NAMES = tuple(f"{sh}{me}{ct}{mu}mouse {ac}" for sh in ("", "shift ") for me in ("", "meta ") for ct in ("", "ctrl ")
+                    for mu in ("", "double ", "triple ") for ac in ("press", "release", "drag", "click"))
+
+
 def _seq(r):
     return r.seq if hasattr(r, "seq") else r
 
@@ -104,15 +108,16 @@ def _xcheck_and_mask():
 class read_mouse_info:
     self_shape = TRIE0
     params = dict(keys=CODES, more_available=Bool)
+    result = Opt(Tup(Tup(Atom(*MOUSE_NAMES), Int, Int, Int), CODES))
     raises = (_esc.MoreInputRequired,)
     static_checks = [_xcheck_and_mask]
 
     def ensures(old, s, a, result):
         n = klen(a.keys)
-        if result is None:
+        if is_none(result):
             yield "none-only-when-truncated-and-nothing-more-can-come", both(n < 3, neg(a.more_available))
             return
-        (name, button, x, y), rem = result
+        (name, button, x, y), rem = val(result)
         yield "complete-report-is-decoded", n >= 3
         yield "consumes-exactly-three-codes-left-to-right", is_suffix_from(rem, a.keys, 3)
         yield "column-and-row-are-the-bytes-less-33-wrapped-into-0-255", both(
@@ -121,10 +126,12 @@ class read_mouse_info:
         b = kat(a.keys, 0) - 32
         if b >= 0:
             yield "button-per-the-x10-layout", button == x10_button(b)
-            yield "documented-name-per-the-x10-layout", name == x10_name(b)
+            yield "documented-name-per-the-x10-layout", eq(name, x10_name(b))
         else:
             # Cb < 32 is not an X10 button byte: nothing documented beyond "an event that is a mouse event"
-            yield "malformed-button-byte-still-a-release-event", both(name.endswith("mouse release"), 0 <= button, button <= 7)
+            yield "malformed-button-byte-still-a-release-event", both(either(*[eq(name, nm) for nm in MOUSE_NAMES if nm.endswith("mouse release")]), 0 <= button, button <= 7)
+
+    ensures_callee = as_assumption(ensures)
 
     def on_raise(old, s, a, exc):
         yield "more-input-asked-only-when-more-can-come-and-the-report-is-incomplete", both(a.more_available, klen(a.keys) < 3)
@@ -213,20 +220,23 @@ def _cpr_loop1(v):
 class read_cursor_position:
     self_shape = TRIE0
     params = dict(keys=CODES, more_available=Bool)
+    result = Opt(Tup(Tup(Const("cursor position"), Int, Int), CODES))
     raises = (_esc.MoreInputRequired,)
 
     def ensures(old, s, a, result):
         p, q, wellformed, incomplete = cpr_shape(a.keys)
-        if result is None:
+        if is_none(result):
             yield "none-only-when-not-a-report", neg(wellformed)
             yield "none-on-a-truncated-report-only-when-nothing-more-can-come", implies(incomplete, neg(a.more_available))
             return
-        (name, x, y), rem = result
+        (name, x, y), rem = val(result)
         yield "reported-exactly-on-wellformed-reports", wellformed
         yield "documented-name", name == "cursor position"
         yield "row-and-column-are-the-decimal-values-less-one", both(y == DEC(a.keys, 1, p) - 1, x == DEC(a.keys, p + 1, q) - 1)
         yield "coordinates-non-negative", both(x >= 0, y >= 0)
         yield "consumes-through-the-R-left-to-right", is_suffix_from(rem, a.keys, q + 1)
+
+    ensures_callee = as_assumption(ensures)
 
     def on_raise(old, s, a, exc):
         p, q, wellformed, incomplete = cpr_shape(a.keys)
@@ -234,3 +244,228 @@ class read_cursor_position:
         yield "more-input-asked-only-on-a-proper-prefix-of-a-report", incomplete
 
     loops = {0: Loop(invariant=_cpr_loop0), 1: Loop(invariant=_cpr_loop1)}
+
+
+# --------------------------------------------------------------------------------------------- the trie walk
+#
+# The trie (`KeyqueueTrie.data`, built at import time from `input_sequences`) is modelled as an opaque dictionary
+# protocol — the facts `get_recurse` relies on and nothing else:
+#   * a node is either a mapping (opaque `TrieMap`) or a leaf, and a leaf is a str: one of the result names of
+#     `input_sequences` (checked against the real table by the static check `leaves-of-the-real-trie`);
+#   * `k in node`, `node[k]` for a mapping node are uninterpreted functions of (node, k); `node[k]` raises KeyError
+#     when `k not in node` (so the code's `not in` test is what makes the subscript safe); a child is again a
+#     mapping or a leaf.
+# Dropped: which sequences the table contains (decided by the bounded check over every table entry).
+from pyvc.api import PROTOCOLS  # noqa: E402
+from pyvc.engine import PyRaise, SExc  # noqa: E402
+from pyvc.protocol import PMethod, Protocol  # noqa: E402
+from pyvc.values import SAtom, SOpaque, SOpt  # noqa: E402
+
+LEAVES = tuple(sorted({r for _s, r in _esc.input_sequences}))
+_TM = S.opaque_sort("TrieMap")
+_T_HAS = z3.Function("TrieMap.has", _TM, z3.IntSort(), z3.BoolSort())
+_T_CHILD_IS_MAP = z3.Function("TrieMap.child_is_map", _TM, z3.IntSort(), z3.BoolSort())
+_T_CHILD = z3.Function("TrieMap.child", _TM, z3.IntSort(), _TM)
+_T_LEAF = z3.Function("TrieMap.leaf", _TM, z3.IntSort(), z3.IntSort())
+
+
+class TrieMapProtocol(Protocol):
+    kind = "TrieMap"
+    methods = {}
+
+    def contains(self, st, obj, x):
+        return mk_bool(_T_HAS(obj.e, V._z(x)))
+
+    def subscript(self, ip, st, obj, idx):
+        zi = V._z(idx)
+        st.partial(mk_bool(_T_HAS(obj.e, zi)), KeyError, "key not in trie node")
+        if st.branch(_T_CHILD_IS_MAP(obj.e, zi)):
+            return SOpaque("TrieMap", _T_CHILD(obj.e, zi))
+        e = _T_LEAF(obj.e, zi)
+        st.assume(z3.Or(*[e == V.atom_code(d) for d in LEAVES]))
+        return SAtom(e, LEAVES)
+
+    def isinstance(self, ip, st, obj, cls):
+        return issubclass(dict, cls)
+
+
+PROTOCOLS["TrieMap"] = TrieMapProtocol()
+
+
+def _real_trie_leaves():
+    out, maps_ok = set(), True
+
+    def walk(d):
+        nonlocal maps_ok
+        for k, v in d.items():
+            maps_ok = maps_ok and isinstance(k, int)
+            if isinstance(v, dict):
+                walk(v)
+            else:
+                out.add(v)
+
+    walk(_esc.input_trie.data)
+    ok = maps_ok and out <= set(LEAVES) and all(isinstance(x, str) for x in out)
+    return "leaves-of-the-real-trie-are-the-modelled-names-and-keys-are-ints", ok, f"{len(out)} leaf names"
+
+
+# Key events.  At the interfaces of get_recurse / get / process_keyqueue an event is an opaque individual
+# (`KeyEvent`): the encoding keeps *that* an event is returned and how many codes it consumed, and drops *which*
+# (the exact names / coordinates are stated on read_mouse_info, read_cursor_position, read_sgrmouse_info themselves
+# and, for the table, by the bounded check).  Three facts about an event are uninterpreted functions of it:
+# whether it is a str, whether it equals a given constant, and the result of `.find(sub)`.
+_KE = S.opaque_sort("KeyEvent")
+_KE_IS_STR = z3.Function("KeyEvent.is_str", _KE, z3.BoolSort())
+_KE_EQ = z3.Function("KeyEvent.eq_const", _KE, z3.IntSort(), z3.BoolSort())
+
+
+class KeyEventProtocol(Protocol):
+    kind = "KeyEvent"
+    methods = {"find": PMethod(Int(-1, None), params=["sub"])}
+
+    def isinstance(self, ip, st, obj, cls):
+        if cls is str:
+            return mk_bool(_KE_IS_STR(obj.e))
+        raise Unsupported(f"isinstance(KeyEvent, {cls})")
+
+    def eq_const(self, st, obj, const):
+        r = mk_bool(_KE_EQ(obj.e, z3.IntVal(V.atom_code(const))))
+        if isinstance(const, str):
+            st.assume(implies(r, mk_bool(_KE_IS_STR(obj.e))))
+        return r
+
+
+PROTOCOLS["KeyEvent"] = KeyEventProtocol()
+EVENT = Opaque("KeyEvent")
+READ = Opt(Tup(EVENT, CODES))  # what a reader returns at a call site: None or (event, remaining codes)
+
+
+
+def split_read(result):
+    """(event, remaining) of a non-None reader result — a plain tuple on the verified function's own paths, an
+    optional at a call site."""
+    r = val(result)
+    return r[0], r[1]
+
+
+def consumed(keys, rem):
+    return klen(keys) - klen(rem)
+
+
+def _is_map(root):
+    return isinstance(root, SOpaque)
+
+
+@contract(ES + "KeyqueueTrie.get_recurse", property="C05", replayable=False)
+class get_recurse:
+    self_shape = TRIE0
+    params = dict(root=Union(Opaque("TrieMap"), Atom(*LEAVES)), keys=CODES, more_available=Bool)
+    result = READ
+    raises = (_esc.MoreInputRequired,)
+    static_checks = [_real_trie_leaves]
+
+    def decreases(s, a):
+        return klen(a.keys)
+
+    def ensures(old, s, a, result):
+        n = klen(a.keys)
+        if is_none(result):
+            if _is_map(a.root):
+                yield "exhausted-keys-give-none-only-when-nothing-more-can-come", implies(n == 0, neg(a.more_available))
+            else:
+                yield "a-leaf-gives-none-only-for-a-truncated-x10-report-when-nothing-more-can-come-or-a-bad-sgr-report", either(
+                    both(a.root == "mouse", n < 3, neg(a.more_available)), a.root == "sgrmouse")
+            return
+        ev, rem = split_read(result)
+        d = consumed(a.keys, rem)
+        yield "remaining-is-a-suffix-left-to-right", is_suffix_from(rem, a.keys, d)
+        if _is_map(a.root):
+            yield "a-match-below-a-mapping-consumes-at-least-one-code", both(d >= 1, n >= 1, mk_bool(_T_HAS(a.root.e, V._z(kat(a.keys, 0)))))
+        else:
+            yield "a-plain-leaf-is-reported-as-it-is-consuming-nothing", implies(both(a.root != "mouse", a.root != "sgrmouse"), both(d == 0, eq(ev, a.root)))
+            yield "an-x10-report-consumes-three-codes", implies(a.root == "mouse", d == 3)
+            yield "an-sgr-report-consumes-through-its-final-letter", implies(a.root == "sgrmouse", d >= 1)
+
+    ensures_callee = as_assumption(ensures)
+
+    def on_raise(old, s, a, exc):
+        yield "more-input-asked-only-when-more-can-come", a.more_available
+
+
+# --------------------------------------------------------------------------------------------- SGR (1006) mouse report
+#
+# ESC [ <  Pb ; Px ; Py (M|m)    `keys` is what follows "[<".  FM(a) = index of the first 'M'/'m' at or after a
+# (n when there is none): FM(a) = a if a < n and keys[a] in {77, 109} else (FM(a+1) if a < n else n).
+
+
+def is_final(k):
+    return either(k == 77, k == 109)
+
+
+def FM(keys, a):
+    return mk_int(_fn(keys, "FM", 1)(V._z(a)))
+
+
+def unfold_final(keys, j):
+    st = cur()
+    n = klen(keys)
+    kj = kat(keys, imax(0, imin(j, n - 1)))
+    st.assume(implies(0 <= j, FM(keys, j) == ite(j >= n, n, ite(is_final(kj), j, FM(keys, j + 1)))))
+    return True
+
+
+def sgr_shape(keys):
+    """(m, s1, s2, wellformed): final letter at m, separators at s1 < s2, three non-empty ASCII-digit fields."""
+    n = klen(keys)
+    k = lambda j: kat(keys, imax(0, imin(j, n - 1)))  # noqa: E731
+    m = FM(keys, 0)
+    s1 = DE(keys, 0)
+    s2 = DE(keys, s1 + 1)
+    e3 = DE(keys, s2 + 1)
+    for a, j in ((0, 0), (s1 + 1, s1 + 1), (s2 + 1, s2 + 1)):
+        unfold_digits(keys, a, j)
+    wellformed = both(m < n, s1 >= 1, s1 < m, k(s1) == 59, s2 > s1 + 1, s2 < m, k(s2) == 59, e3 == m, m > s2 + 1)
+    return m, s1, s2, wellformed
+
+
+def sgr_name(b, final):
+    prefix = ("shift " if bit(b, 2) else "") + ("meta " if bit(b, 3) else "") + ("ctrl " if bit(b, 4) else "")
+    if final == 109:
+        action = "release"
+    elif bit(b, 5):
+        action = "drag"
+    else:
+        action = "press"
+    return f"{prefix}mouse {action}"
+
+
+SGR_NAMES = tuple(nm for nm in MOUSE_NAMES if "double" not in nm and "triple" not in nm and "click" not in nm)
+
+
+@contract(ES + "KeyqueueTrie.read_sgrmouse_info", property="C05", replayable=False)
+class read_sgrmouse_info:
+    self_shape = TRIE0
+    params = dict(keys=CODES, more_available=Bool)
+    result = Opt(Tup(Tup(Atom(*SGR_NAMES), Int, Int, Int), CODES))
+    raises = (_esc.MoreInputRequired,)
+
+    def ensures(old, s, a, result):
+        n = klen(a.keys)
+        m, s1, s2, wellformed = sgr_shape(a.keys)
+        if is_none(result):
+            yield "none-only-on-a-malformed-or-unterminated-report", neg(wellformed)
+            yield "none-on-an-unterminated-report-only-when-nothing-more-can-come", implies(m == n, neg(a.more_available))
+            return
+        (name, button, x, y), rem = val(result)
+        yield "reported-exactly-on-wellformed-reports", wellformed
+        b = DEC(a.keys, 0, s1)
+        yield "column-and-row-are-the-decimal-fields-less-one", both(x == DEC(a.keys, s1 + 1, s2) - 1, y == DEC(a.keys, s2 + 1, m) - 1)
+        yield "button-is-low-two-bits-plus-one-wheel-adds-three", button == b % 4 + 1 + ite(bit(b, 6), 3, 0)
+        yield "documented-name-per-the-sgr-layout", eq(name, sgr_name(b, kat(a.keys, imax(0, imin(m, n - 1)))))
+        yield "consumes-through-the-final-letter-left-to-right", is_suffix_from(rem, a.keys, m + 1)
+
+    ensures_callee = as_assumption(ensures)
+
+    def on_raise(old, s, a, exc):
+        yield "more-input-asked-only-when-more-can-come", a.more_available
+        yield "more-input-asked-only-while-the-final-letter-is-missing", FM(a.keys, 0) == klen(a.keys)
